@@ -85,6 +85,9 @@ def serve(module: str, verif_root: str) -> None:
     import importlib
 
     faulthandler.enable()
+    import warnings
+
+    warnings.filterwarnings("ignore", message=".*multi-threaded, use of fork.*")
     sys.path.insert(0, verif_root)
     from sim.driver import import_formulaic_checked
 
